@@ -24,8 +24,9 @@ func cfgOnePerMsg(members int, joiner bool) Cfg {
 }
 
 // Sizes below were measured on this machine (16 workers, other jobs running): quick explores
-// about 3.4 M states in 35-65 s, thorough about 45 M states in 10-13 min. Every box stops at
-// its share of the internal time budget and reports the bound it completed.
+// about 4.6 M states in 45-85 s (B9, the snapshot/compaction box, is 1.24 M of them and closes
+// in 13-21 s), thorough about 55 M states in 12-16 min. Every box stops at its share of the
+// internal time budget (100 s quick, 17 min thorough) and reports the bound it completed.
 func makeBoxes(tier string) []*Box {
 	thorough := tier == "thorough"
 	pick := func(q, t int) int {
